@@ -293,7 +293,8 @@ pub fn raw_facts(cfg: &GenCfg) -> impl Strategy<Value = RawFacts> {
             0u8..8,
             0u8..4,
             vec(node_strategy(cfg), cfg.min_terms..=cfg.max_terms),
-            (any::<u16>(), prop_oneof![6 => 0u8..13, 1 => any::<u8>()], prop_oneof![6 => 0u8..32, 1 => any::<u8>()]),
+            // (release versions: any year, with the borders 0 and 9999 and 65535 over-represented)
+            (prop_oneof![8 => any::<u16>(), 1 => Just(0u16), 1 => Just(9999u16), 1 => Just(u16::MAX)], prop_oneof![6 => 0u8..13, 1 => any::<u8>()], prop_oneof![6 => 0u8..32, 1 => any::<u8>()]),
         ),
         (
             nrec().prop_flat_map({
@@ -471,7 +472,11 @@ pub fn realise(raw: &RawFacts, cfg: &GenCfg) -> Facts {
         let idr = raw.nodes[i].idr;
         let mut id = match raw.id_mode {
             // dense from 1 (or from 0 when borders are allowed and idr is even)
-            0 => rank[i] as u32 + u32::from(!(cfg.border_ids && raw.nodes[0].idr % 2 == 0)),
+            // (in one case of three the run of consecutive ids has exactly one hole)
+            0 => {
+                let hole = if raw.keys.len() >= 64 && raw.keys[56] % 3 == 0 && n >= 3 { 1 + raw.keys[55] as usize % (n - 1) } else { usize::MAX };
+                rank[i] as u32 + u32::from(!(cfg.border_ids && raw.nodes[0].idr % 2 == 0)) + u32::from(rank[i] >= hole)
+            }
             // dense block somewhere in the id space
             1 => 100 + rank[i] as u32 * 2 + (idr & 1),
             // sparse uniform
